@@ -37,6 +37,15 @@ CallOK(x, c) ==
                             [] c.op = "delete" -> c.n >= 1 /\ c.pos >= 0 /\ c.pos + c.n <= sz
                             [] c.op = "update" -> Len(c.vals) >= 1 /\ c.pos >= 0 /\ c.pos + Len(c.vals) <= sz
                             [] OTHER -> FALSE
+      [] Kind = "doc"  -> /\ \E y \in DContainers(x.snap) : y.path = c.path
+                          /\ LET node == x.snap[DResolve(x.snap, c.path)]
+                                 sz == Len(DLiveItems(x.snap, node))
+                             IN CASE c.op = "put" -> node.kind = "O" /\ c.k \in {"x", "y"}
+                                  [] c.op = "rmv" -> node.kind = "O" /\ c.k \in DOMAIN node.m /\ ~DIsTomb(x.snap[node.m[c.k]])
+                                  [] c.op = "ins" -> node.kind = "A" /\ c.pos >= 0 /\ c.pos <= sz /\ Len(c.vals) >= 1
+                                  [] c.op = "del" -> node.kind = "A" /\ c.n >= 1 /\ c.pos >= 0 /\ c.pos + c.n <= sz
+                                  [] c.op = "upd" -> node.kind = "A" /\ Len(c.vals) >= 1 /\ c.pos >= 0 /\ c.pos + Len(c.vals) <= sz
+                                  [] OTHER -> FALSE
       [] OTHER -> FALSE
 
 TLocal == /\ Is("local") /\ Adv
